@@ -1,4 +1,5 @@
 import Gengo.Model.Loader
+import Gengo.Lemmas.WalkInv
 import Gengo.Generated.Facts
 /-! # C01 – the parsed type universe is structurally faithful to the Go type checker -/
 namespace Gengo.C01
@@ -41,5 +42,76 @@ theorem nameOf_anonymous (v2 : Bool) (s : Str) (h : anonPrefixes.any (fun p => p
     nameOf v2 s = ⟨[], s⟩ := by
   unfold nameOf nameOfV1 nameOfV2
   cases v2 <;> simp [h]
+
+/-! ### every declared type of a requested package is in the universe (full model, Lemmas/WalkInv.lean) -/
+open Gengo.WalkInv
+
+/-- the type of scope object `ob` is registered under its own name and has a kind -/
+def Present (F : Facts) (v2 : Bool) (u : U) (ob : GObj) : Prop :=
+  ∃ (o : Nat) (t : Obj), AL.lookup (nameOf v2 (F.str ob.ty)) u.types = some o ∧ u.objs[o]? = some t ∧ t.kind ≠ .unknown
+
+theorem Present.mono {F : Facts} {v2 : Bool} {u u' : U} {ob : GObj} (h : Present F v2 u ob) (hg : Grows u u') : Present F v2 u' ob := by
+  obtain ⟨o, t, h1, h2, h3⟩ := h
+  obtain ⟨t', h4, _, h6⟩ := hg.objs o t h2
+  exact ⟨o, t', hg.idx _ _ h1, h4, by rw [h6 h3]; exact h3⟩
+
+/-- a non-generic named type whose underlying node is an unnamed type node (what go/types guarantees) -/
+def PlainNamed (F : Facts) (v2 : Bool) (ob : GObj) : Prop :=
+  ob.kind = .typeName ∧ ∃ und ms origUnd, F.node ob.ty = .named und ms [] origUnd ∧
+    (isAliasUnder (F.node und) = true ∨ ∃ K kids, shape v2 (F.node und) = some (K, kids)) ∧
+    (∃ K kids, shape v2 (F.node origUnd) = some (K, kids))
+
+theorem addObj_present (bt : List Builtin) (F : Facts) (v2 : Bool) (fuel : Nat) (u u' : U) (ob : GObj)
+    (hp : PlainNamed F v2 ob) (h : WalkInv.Inv bt u) (hf : addObj bt F v2 (fuel + 1) u ob = some u') : Present F v2 u' ob := by
+  obtain ⟨hk, und, ms, origUnd, hn, hund, horig⟩ := hp
+  unfold addObj at hf
+  simp only [hk] at hf
+  cases hw : walk bt F v2 (fuel + 1) u ob.ty none with
+  | none => simp [hw] at hf
+  | some p =>
+    obtain ⟨u1, o⟩ := p
+    simp only [hw, Option.map_some, Option.some.injEq] at hf
+    subst hf
+    have l := walk_named_idx bt F v2 fuel u ob.ty none und ms origUnd hn hund horig u1 o h hw
+    have p := walk_inv bt F v2 (fuel + 1) u ob.ty none u1 o h hw
+    obtain ⟨t, h1, h2⟩ := p.good.1
+    exact ⟨o, t, l, h1, h2⟩
+
+theorem addObjs_present (bt : List Builtin) (F : Facts) (v2 : Bool) (fuel : Nat) : ∀ (obs : List GObj) (u u' : U),
+    WalkInv.Inv bt u → addObjs bt F v2 (fuel + 1) u obs = some u' →
+    ∀ ob ∈ obs, PlainNamed F v2 ob → Present F v2 u' ob := by
+  intro obs
+  induction obs with
+  | nil => intro u u' _ _ ob hob; cases hob
+  | cons x rest ih =>
+    intro u u' h hf ob hob hp
+    simp only [addObjs] at hf
+    cases ha : addObj bt F v2 (fuel + 1) u x with
+    | none => simp [ha] at hf
+    | some u1 =>
+      simp only [ha] at hf
+      obtain ⟨h1, _⟩ := addObj_inv F v2 (fuel + 1) u x u1 h ha
+      rcases List.mem_cons.mp hob with rfl | hrest
+      · exact (addObj_present bt F v2 fuel u u1 ob hp h ha).mono (addObjs_inv F v2 (fuel + 1) rest u1 u' h1 hf).2
+      · exact ih u1 u' h1 hf ob hrest hp
+
+/-- **declared_types_present**: after the scan of a requested package every (non-generic) named type of its scope is
+in the universe: registered under its own name, with a kind – whatever was loaded before -/
+theorem scan_declared_types_present (bt : List Builtin) (F : Facts) (v2 : Bool) (fuel : Nat) (u u' : U) (p : GPkg)
+    (h : WalkInv.Inv bt u) (hf : scanPkg bt F v2 (fuel + 1) u p = some u') :
+    ∀ ob ∈ p.scope, PlainNamed F v2 ob → Present F v2 u' ob := by
+  intro ob hob hp
+  unfold scanPkg at hf
+  obtain ⟨a, b, c, d⟩ := package_objs u p.path
+  obtain ⟨h1, _⟩ := inv_of_same (u' := (u.package p.path).setPkg p.path (fun r => { r with name := p.name })) a b c d h
+  cases ha : addObjs bt F v2 (fuel + 1) ((u.package p.path).setPkg p.path (fun r => { r with name := p.name })) p.scope with
+  | none => simp [ha] at hf
+  | some u2 =>
+    simp only [ha, Option.some.injEq] at hf
+    subst hf
+    have pr := addObjs_present bt F v2 fuel _ _ _ h1 ha ob hob hp
+    obtain ⟨a', b', c', d'⟩ := addImports_same u2 p.path (p.imports.mergeSort Str.le)
+    obtain ⟨h3, g3⟩ := inv_of_same a' b' c' d' (addObjs_inv F v2 (fuel + 1) _ _ _ h1 ha).1
+    exact pr.mono g3
 
 end Gengo.C01
